@@ -108,6 +108,11 @@ def check(tier, replay_path=None):
     results = []
     if replay_path:
         obj = common.read_json(replay_path)
+        if obj.get('source') == 'hooks':
+            # a trace of the repository tests: the tests are run again on the hooked library and judged again
+            from .. import hooktrace
+            hooktrace.check(rep, tier)
+            return rep.finish()
         schema = schemas.SCHEMAS[obj['shape']]
         runs = [{'acts': obj['acts'], 'src': 'replay'}]
         traces, verdicts, st = metacheck.replay_validate(schema, runs)
@@ -150,9 +155,18 @@ def check(tier, replay_path=None):
                 sig = {'shape': name, 'op': e['op'], 'res': e['res'], 'clause': v.clause}
                 rep.failure(sig, {'shape': name, 'acts': run['acts'][:v.step], 'step': v.step,
                                   'clause': v.clause, 'event': e, 'spec_expected': repr(v.expected)})
+    hooks = None
+    if not replay_path:
+        # the repository's own tests, run on the library with the source hooks on: every top-level relate / unrelate /
+        # delete / new call on a small metamodel is validated by TLC against Meta.tla from the state it was made in
+        from .. import hooktrace
+        hooks = hooktrace.check(rep, tier)
     rc = rep.finish()
     if replay_path:
         return rc
+    cov['repository_tests_under_hooks'] = hooks
+    cov['traces_validated_against_impl'] += hooks['traces_accepted']
+    cov['evaluations'] += hooks['steps']
     cov['distinct_nontrivial'] = len(distinct)
     cov['rule'] = ('one evaluation = one recorded call (new/relate/unrelate/delete, incl. rejected ones) whose outcome, '
                    'pools, navigation results from every handle across every association in both directions and '
@@ -169,5 +183,9 @@ def check(tier, replay_path=None):
         'repeated delete (use-after-delete is not in the statement)',
         'the metamodel is defined through define_class/define_association/formalize/define_unique_identifier '
         'with the integer id generator',
+        'traces of the repository tests (source hooks, PYXTUML_VERIF=1): only metamodels with at most 8 classes of core-typed '
+        'attributes, 10 associations and 24 instances; creation calls with referential arguments and calls on deleted '
+        'instances are not recorded; the state in front of each call is adopted from the recording (MetaTrace!AdoptState), '
+        'so each call is judged as one step from the state it was made in',
     ])
     return rc
